@@ -37,6 +37,10 @@ def boom(kind='value', msg='bad'):
     raise AppError(msg)
   if kind == 'runtime':
     raise RuntimeError(msg)
+  if kind == 'timeout':
+    raise TimeoutError(msg)      # an application-level timeout, not a call deadline
+  if kind == 'conn':
+    raise ConnectionError(msg)
   raise ZeroDivisionError(msg)
 
 
@@ -108,6 +112,8 @@ class Box:
 def counting_gen(n, ret=None, fail_at=None):
   for i in range(n):
     if fail_at is not None and i == fail_at:
+      if i % 3 == 2:
+        raise TimeoutError(f'gen@{i}')   # application-level timeout inside the generator
       raise AppError(f'gen@{i}')
     yield i
   return ret
@@ -143,7 +149,7 @@ def gen_expr(rng: random.Random, depth: int):
   if fn == 'div':
     return ['call', 'div', [num(), num()], {}, cache]
   if fn == 'boom':
-    return ['call', 'boom', [], {'kind': ['const', rng.choice(['value', 'key', 'type', 'app', 'runtime', 'zero'])],
+    return ['call', 'boom', [], {'kind': ['const', rng.choice(['value', 'key', 'type', 'app', 'runtime', 'zero', 'timeout', 'conn'])],
                                  'msg': ['const', rng.choice(['bad', 'x y', ''])]}, False]
   box = ['call', 'Box', [num(), ['call', 'mk_list', [['const', c] for c in rng.sample([1, 2, 3, 'q'], rng.randint(0, 3))], {}, False]], {}, False]
   if fn == 'box_times':
